@@ -115,8 +115,15 @@ impl Out {
     }
 }
 
+static LAST_PANIC: std::sync::Mutex<String> = std::sync::Mutex::new(String::new());
+
 fn main() {
-    std::panic::set_hook(Box::new(|_| {}));
+    // panics are outcomes that the checks catch and classify; the hook stays quiet but remembers the last one, so
+    // that a panic NOBODY caught (a call into the real code outside a guard, or a bug of the harness) is reported
+    // with its message and location instead of an empty exit 101
+    std::panic::set_hook(Box::new(|info| {
+        if let Ok(mut g) = LAST_PANIC.lock() { *g = format!("{}", info); }
+    }));
     let args: Vec<String> = std::env::args().collect();
     if args.len() < 2 {
         eprintln!("usage: evh run <Cxx> <quick|thorough> <seed> | evh sizes");
@@ -130,11 +137,21 @@ fn main() {
             let mut out = Out::new(thorough);
             let mut rng = R::seed_from_u64(seed ^ prop_salt(prop));
             let extra: Vec<String> = args[5..].to_vec();
-            if !props::run(prop, &mut rng, &mut out, &extra) {
-                eprintln!("unknown property {}", prop);
-                std::process::exit(2);
+            let r = catch_unwind(AssertUnwindSafe(|| props::run(prop, &mut rng, &mut out, &extra)));
+            match r {
+                Ok(true) => out.flush(),
+                Ok(false) => {
+                    eprintln!("unknown property {}", prop);
+                    std::process::exit(2);
+                }
+                Err(_) => {
+                    let what = LAST_PANIC.lock().map(|g| g.clone()).unwrap_or_default();
+                    out.s("no_uncaught_panic_during_the_run", false, || format!("the run stopped at an uncaught panic: {}", what));
+                    out.flush();
+                    eprintln!("uncaught panic: {}", what);
+                    std::process::exit(101);
+                }
             }
-            out.flush();
         }
         "probe" => { props::probe(&args[2..]); }
         "sizes" => {
